@@ -26,7 +26,11 @@ def main():
             'evidence_file': 'evidence/%s.json' % pid,
             'replay_cmd_template': './check %s --replay {path}' % pid,
             'engine': 'vp',
-            'level_claimed': {'category': 'exploration', 'text': m.LEVEL_TEXT, 'design_ref': m.DESIGN_REF},
+            'level_claimed': {'category': 'exploration', 'text': m.LEVEL_TEXT + (
+                ' [thorough tier as registered: a seeded covering sample of 320 (translation unit, configuration) pairs of the thorough product named above]'
+                if getattr(m, 'THOROUGH_NATIVE', False) else
+                ' [thorough tier as registered: the union of three independent draws of the quick generator under the quick configurations; any larger thorough product named above is available with VERIF_NATIVE_THOROUGH=1 but was not soaked to silence and is not registered, see DESIGN.md 12.1]'),
+                'design_ref': m.DESIGN_REF},
             'level_note': m.LEVEL_NOTE,
             'technique': m.TECHNIQUE,
         })
